@@ -738,6 +738,71 @@ func TestCallSequences(t *testing.T) {
 	})
 }
 
+// TestManyParameters: parameter lists and argument lists far beyond the exhaustive bound (8 .. 100 parameters, up to
+// 300 variadic arguments): every parameter still receives exactly its own argument.
+func TestManyParameters(t *testing.T) {
+	n := 0
+	for _, np := range []int{8, 15, 16, 17, 31, 32, 33, 63, 64, 65, 100} {
+		for shape := 0; shape < 4; shape++ {
+			var l []pdef
+			nreq := np
+			switch shape {
+			case 1:
+				nreq = np / 2 // the rest optional
+			case 2:
+				nreq = np - 1 // last one variadic
+			case 3:
+				nreq = 1
+			}
+			for i := 0; i < np; i++ {
+				k := req
+				if i >= nreq {
+					k = opt
+				}
+				if shape == 2 && i == np-1 {
+					k = vari
+				}
+				l = append(l, pdef{k, fmt.Sprintf("p%d", i)})
+			}
+			if !checkList(t, "many", l) {
+				rk.Fail(t, "many", replay{Sig: sigText(l)}, "harness: generated list is not valid")
+			}
+			pos := func(k int) []arg {
+				var c []arg
+				for i := 0; i < k; i++ {
+					c = append(c, arg{Val: int64(1000 + i), Nil: i%11 == 10})
+				}
+				return c
+			}
+			calls := [][]arg{pos(nreq), pos(np)}
+			if shape == 2 {
+				calls = append(calls, pos(np-1), pos(np+1), pos(np+31), pos(np+32), pos(np+33), pos(np+300))
+			} else {
+				// the second half by name, in reverse order
+				c := pos(nreq / 2)
+				for i := nreq - 1; i >= nreq/2; i-- {
+					c = append(c, arg{Name: l[i].Name, Val: int64(2000 + i)})
+				}
+				calls = append(calls, c)
+				// every parameter by name, odd ones first
+				var c2 []arg
+				for i := 1; i < np; i += 2 {
+					c2 = append(c2, arg{Name: l[i].Name, Val: int64(3000 + i)})
+				}
+				for i := 0; i < np; i += 2 {
+					c2 = append(c2, arg{Name: l[i].Name, Val: int64(3000 + i)})
+				}
+				calls = append(calls, c2, pos(np+1), pos(nreq-1))
+			}
+			for _, c := range calls {
+				checkCall(t, "many", l, c)
+				n++
+			}
+		}
+	}
+	evid.Exhaustive("8..100 parameters x {all required, half optional, variadic tail, one required} x call shapes", n)
+}
+
 // TestTypedGetters: each typed getter with well- and ill-typed arguments.
 func TestTypedGetters(t *testing.T) {
 	params := []*runtimev2.Param{{Name: "v"}}
